@@ -1507,22 +1507,22 @@ def streams(rng, tier, boost):
         for tup in itertools.product(range(len(RAW_ALPHA)), repeat=n):
             toks = [list(RAW_ALPHA[i]) for i in tup]
             out.append(('raw-int', dict(kind='num', op='int', toks=toks, nt=n >= 2)))
-            if n <= 3:
+            if n <= (2 if (quick and boost == 1) else 3):
                 out.append(('raw-dimen', dict(kind='num', op='dimen', units=0, toks=toks, nt=n >= 2)))
     # 3. random structured literals
-    n = (2500 if quick else 25000) * boost
+    n = (1600 if quick else 25000) * boost
     for _ in range(n):
         out.append(('int-random', int_case(rng)))
         out.append(('dimen-random', dimen_case(rng)))
         out.append(('glue-random', glue_case(rng)))
     # 4. malformed token lists through every reader
-    for _ in range((1500 if quick else 15000) * boost):
+    for _ in range((1000 if quick else 15000) * boost):
         toks = rand_raw(rng, rng.randint(0, 9))
         op = rng.choice(['int', 'dec', 'dimen', 'glue', 'unit', 'dimen'])
         out.append(('malformed', dict(kind='num', op=op, units=rng.choice([0, 0, 1, 2, 3]) if op in ('dimen', 'unit') else rng.choice([0, 0, 1]),
                                       toks=toks, lvl=rng.choice([0, 0, 0, -1, -2]), optspace=rng.choice([1, 1, 0]), nt=len(toks) >= 3)))
     # 5. groups
-    out += delim_cases(rng, (1500 if quick else 12000) * boost)
+    out += delim_cases(rng, (1000 if quick else 12000) * boost)
     for _ in range((600 if quick else 5000) * boost):
         toks = rand_raw(rng, rng.randint(0, 8)) + chs(rng.choice(['', ']', '}', ')', ']]', '}}']))
         rng.shuffle(toks)
@@ -1562,7 +1562,7 @@ def streams(rng, tier, boost):
                                 'o:dict(|)', ':str', 'k:', '-']) for _ in range(rng.randint(0, 7)))
         out.append(('signatures-malformed', dict(kind='sig', sig=s, nt=len(s) > 3, tags=['malformed'])))
     # 7. signature x conforming call
-    for _ in range((2500 if quick else 25000) * boost):
+    for _ in range((1800 if quick else 25000) * boost):
         c = parse_case(rng)
         if c:
             out.append(('calls', c))
